@@ -33,6 +33,11 @@ Definition not_owned (fields : list (string * bool)) (accs : list access) : list
 Definition global_maps_ok (accs : list (string * string * bool * bool)) : bool :=
   forallb (fun a => let '(_, _, _, ok) := a in ok) accs.
 
+(* local variables shared with function literals and modified once such a literal exists: (function.variable,
+   context, writes, synchronised: the context locks, or the type synchronises itself, or the access is atomic) *)
+Definition captured_ok (accs : list (string * string * bool * bool)) : bool :=
+  forallb (fun a => let '(_, _, _, ok) := a in ok) accs.
+
 (* ---------- part 2: traces ---------- *)
 Inductive ev := Acq (t l : nat) | Rel (t l : nat) | Acc (t x : nat) (w : bool).
 Definition thread (e : ev) : nat := match e with Acq t _ | Rel t _ | Acc t _ _ => t end.
